@@ -5,6 +5,12 @@ import Driver.Rules
 import Driver.Exhaust
 import Driver.Compose
 import Driver.Stats
+import Driver.InstSat
+import Driver.JR
+import Driver.Price
+import Driver.Multi
+import Driver.Containers
+import Driver.Effects
 open Pabu Pabu.Driver
 
 def dispatch (line : String) : String :=
@@ -21,6 +27,14 @@ def dispatch (line : String) : String :=
     | "exhaust" => cmdExhaust a
     | "compose" => cmdCompose a
     | "stats" => cmdStats a
+    | "inst" => cmdInst a
+    | "sat" => cmdSat a
+    | "jr" => cmdJR a
+    | "price" => cmdPrice a
+    | "round2" => cmdRound2 a
+    | "multi" => cmdMulti a
+    | "ops" => cmdOps a
+    | "effects" => cmdEffects a
     | _ => "bad-op"
 
 partial def loop (h : IO.FS.Stream) (out : IO.FS.Stream) : IO Unit := do
